@@ -177,6 +177,7 @@ func (s *Stream) close(status int32) error {
 		status = StreamClosed
 	}
 	atomic.StoreInt32(&s.status, status)
+	verifPoint("close.marked", s)
 
 	// 关闭 hls
 	if s.tsMuxer != nil {
@@ -208,6 +209,7 @@ func (s *Stream) WriteRtpPacket(packet *rtp.Packet) error {
 	atomic.AddUint64(&s.size, uint64(packet.Size()))
 
 	keyframe := s.cache.CachePack(packet)
+	verifPoint("publish.cached", s)
 	s.consumptions.SendToAll(packet, keyframe)
 
 	s.rtpDemuxer.WriteRtpPacket(packet)
@@ -235,6 +237,7 @@ func (s *Stream) WriteFlvTag(tag *flv.Tag) error {
 	}
 
 	keyframe := s.flvCache.CachePack(tag)
+	verifPoint("flvpublish.cached", s)
 	s.flvConsumptions.SendToAll(tag, keyframe)
 	return nil
 }
@@ -281,7 +284,9 @@ func (s *Stream) startConsume(consumer Consumer, packetType PacketType, extra st
 	if useGopCache {
 		c.sendGop(cache) // 新消费者，先发送gop缓存
 	}
+	verifPoint("join.snapshotted", c)
 	cs.Add(c)
+	verifPoint("join.registered", c)
 
 	go c.consume()
 	return c.cid
